@@ -220,6 +220,23 @@ divisors(int n)
   return v;
 }
 
+//! arc-corrected bins must lie inside the detector ring: get_tantheta/get_LOR take sqrt(R^2 - s^2)
+/*! ("assert(R >= fabs(get_s(bin)))", ProjDataInfoCylindrical.inl); s of the outermost bin is (tang/2)*bin_size.
+    Call after any change of j["arccorr"] to true. */
+inline void
+clamp_arccorr_tang(json& j, const stir::Scanner& sc)
+{
+  if (!j["arccorr"].get<bool>())
+    return;
+  const double R = sc.get_effective_ring_radius();
+  const double bs = sc.get_default_bin_size();
+  const int half = bs > 0 ? int(std::floor(0.999 * R / bs)) : 0;
+  if (half < 1)
+    j["arccorr"] = false;
+  else
+    j["tang"] = std::min(j["tang"].get<int>(), 2 * half);
+}
+
 //! generate projection-data sampling for a scanner (needs the real scanner for predefined types)
 inline json
 gen_pdi(Src& s, const stir::Scanner& sc, const PdiOpts& o)
@@ -257,6 +274,7 @@ gen_pdi(Src& s, const stir::Scanner& sc, const PdiOpts& o)
   const int max_tang = sc.get_max_num_non_arccorrected_bins();
   j["tang"] = int(s.range(std::min(2, max_tang), max_tang));
   j["arccorr"] = (o.allow_arccorr && cyl && s.chance(1, 3));
+  clamp_arccorr_tang(j, sc);
   int tof_mash = 0;
   if (sc.is_tof_ready() && cyl)
     {
